@@ -7,6 +7,7 @@ Line protocol for C07 (see harness/c07/main.go):
   par n <N> m <M> cap <C> ops <op>* (th <op>*)+         holds only (concurrent block, no model line)
   op: A c | H c x t | Q c t | F c | HS c x t | QS c t | K x c | S | O c | B c | X c | R c | U c | T c | P c
       | XF c | RF c | SF | BF c   (X/R/S/B while the cloud-control store fails)
+      | G c x   RegisterControlConnection of a new object for c (x = 0 unauthenticated, x > 0 pre-authenticated)
   obs: cl (<conn> <clientID> <auth> <same> | - - - -){M} cn ((<clientID> <auth> | - -) <inS> <inT> <closed>){N}
        la <k> <conn>{k} ct <Count> <Total> <Control> <Tunnel> <Active>
        alt <len List()> <len ListConnections()> <GetActiveConnections()> (<conn>|-){M} <GetClientIDByConnectionID>{N}
@@ -45,6 +46,10 @@ def parseFOps : Nat → List String → Option (List FOp × List String)
       let x ← x.toNat?; let c ← c.toNat?
       let (o, r') ← parseFOps fuel r
       pure ((Op.kick x c, false) :: o, r')
+    | "G" :: c :: x :: r => do
+      let c ← c.toNat?; let x ← x.toNat?
+      let (o, r') ← parseFOps fuel r
+      pure ((Op.reg c x, false) :: o, r')
     | k :: c :: r =>
       match (match k with
              | "A" => some (Op.accept, false) | "F" => some (Op.hsFin, false) | "O" => some (Op.age, false)
